@@ -137,8 +137,27 @@ func (s *CertPool) findVerifiedParents(cert *Certificate) (parents []int, errCer
 	if len(cert.AuthorityKeyId) > 0 {
 		candidates = s.bySubjectKeyId[string(cert.AuthorityKeyId)]
 	}
+	// The key identifier is only a hint for picking the issuer certificate
+	// (RFC 5280, 4.2.1.1): certificates with the issuer's name and another,
+	// or no, key identifier are candidates too, after those whose key
+	// identifier matches. Otherwise an unusable certificate with a matching
+	// key identifier (for example the expired predecessor of a renewed CA
+	// certificate) would hide the usable ones.
+	byName := s.byName[string(cert.RawIssuer)]
 	if len(candidates) == 0 {
-		candidates = s.byName[string(cert.RawIssuer)]
+		candidates = byName
+	} else {
+		byKeyId := candidates
+		candidates = append(make([]int, 0, len(byKeyId)+len(byName)), byKeyId...)
+	nextByName:
+		for _, n := range byName {
+			for _, k := range byKeyId {
+				if n == k {
+					continue nextByName
+				}
+			}
+			candidates = append(candidates, n)
+		}
 	}
 
 	for _, c := range candidates {
